@@ -1770,6 +1770,105 @@ def rule_r24(prog, res):
               'C04', c04.rule_r7, prog, Result)
 
 
+# ------------------------------------------------------------------ R25
+_FLIP = {ast.Lt: ast.Gt, ast.Gt: ast.Lt, ast.LtE: ast.GtE, ast.GtE: ast.LtE}
+
+
+def _occurs_bound(e, aliases):
+    """'min' / 'max' when ``e`` reads a declared occurrence bound (the
+    attribute itself or a local bound to it), else None."""
+    if isinstance(e, ast.Attribute) and e.attr in ('min_occurs',
+                                                   'max_occurs'):
+        return e.attr[:3]
+    if isinstance(e, ast.Name):
+        return aliases.get(e.id)
+    return None
+
+
+def rule_r25(prog, res):
+    res.rule('R25', 'occurrence bounds are inclusive in every reader: a guard '
+             'that refuses a request compares a count with the declared '
+             'bounds as count < min_occurs / count > max_occurs (exactly '
+             'min_occurs and exactly max_occurs items are accepted), in the '
+             'XML readers, the dict-document readers and the flat reader '
+             'alike')
+    n = 0
+    for m in prog.modules.values():
+        if not (m.name.startswith('spyne.protocol') or
+                m.name.startswith('spyne.model')):
+            continue
+        for f in [x for x in ast.walk(m.tree) if isinstance(
+                x, (ast.FunctionDef, ast.Lambda))]:
+            aliases = {}
+            for a in walk_no_defs(f):
+                if isinstance(a, ast.Assign) and len(a.targets) == 1:
+                    t, v = a.targets[0], a.value
+                    pairs = []
+                    if isinstance(t, ast.Tuple) and isinstance(
+                            v, ast.Tuple) and len(t.elts) == len(v.elts):
+                        pairs = zip(t.elts, v.elts)
+                    else:
+                        pairs = [(t, v)]
+                    for tt, vv in pairs:
+                        if isinstance(tt, ast.Name) and isinstance(
+                                vv, ast.Attribute) and vv.attr in (
+                                'min_occurs', 'max_occurs'):
+                            aliases[tt.id] = vv.attr[:3]
+            for c in walk_no_defs(f):
+                if not isinstance(c, ast.Compare) or len(c.ops) != 1 or \
+                        type(c.ops[0]) not in _FLIP:
+                    continue
+                l, r = c.left, c.comparators[0]
+                op = type(c.ops[0])
+                kb = _occurs_bound(r, aliases)
+                count = l
+                if kb is None:
+                    kb = _occurs_bound(l, aliases)
+                    count = r
+                    op = _FLIP[op]
+                if kb is None or isinstance(count, ast.Constant) or \
+                        _occurs_bound(count, aliases):
+                    continue
+                # a refusing guard: the innermost if whose test holds this
+                # comparison positively and whose body always raises
+                st = c
+                while st is not None and not isinstance(st, ast.stmt):
+                    st = parent(st)
+                if not isinstance(st, ast.If) or not any(
+                        x is c for x in ast.walk(st.test)):
+                    continue
+                pol = True
+                cur = c
+                while cur is not st.test:
+                    p_ = parent(cur)
+                    if isinstance(p_, ast.UnaryOp) and isinstance(
+                            p_.op, ast.Not):
+                        pol = not pol
+                    cur = p_
+                raising = bool(st.body) and all(
+                    isinstance(x, ast.Raise) for x in st.body[-1:]) 
+                if not raising:
+                    continue
+                n += 1
+                if not pol:
+                    op = {ast.Lt: ast.GtE, ast.GtE: ast.Lt, ast.Gt: ast.LtE,
+                          ast.LtE: ast.Gt}[op]
+                ok = (kb == 'min' and op is ast.Lt) or (
+                    kb == 'max' and op is ast.Gt)
+                where = '%s:%d' % (m.relpath, c.lineno)
+                res.ob('R25', where, 'refusing guard %s (count vs %s_occurs)'
+                       % (unparse(c), kb), 'ok' if ok else 'VIOLATED')
+                if not ok:
+                    res.finding('R25', '%s|occurs-bound|%s|%s' % (
+                        getattr(f, 'name', 'lambda'), kb, unparse(c)), where,
+                        'a request is refused when %s: a member that occurs '
+                        'exactly %s_occurs times (or a count on the wrong '
+                        'side of the bound) gets a verdict that differs '
+                        'from the published schema and from the sibling '
+                        'readers' % (unparse(c), kb))
+    res.floor('R25', 'refusing occurrence guards', n, 6)
+
+
 def run(prog, res, tier):
     res.run_rule(rule_r1, prog, res)
     res.run_rule(rule_r2, prog, res)
@@ -1796,6 +1895,7 @@ def run(prog, res, tier):
     res.run_rule(rule_r22, prog, res)
     res.run_rule(rule_r23, prog, res)
     res.run_rule(rule_r24, prog, res)
+    res.run_rule(rule_r25, prog, res)
 
 
 _X = 'spyne/protocol/xml.py'
@@ -1809,6 +1909,20 @@ _I = 'spyne/protocol/_inbase.py'
 _SI = 'spyne/protocol/dictdoc/simple.py'
 
 MUTANTS = [
+    Mutant('hier-array-max-exclusive', 'R25', 'fire',
+           'spyne/protocol/dictdoc/hier.py',
+           in_func('HierDictDocument._doc_to_object',
+                   "if len(retval) > attrs.max_occurs:",
+                   "if len(retval) >= attrs.max_occurs:"), 'occurs-bound'),
+    Mutant('xml-array-min-exclusive', 'R25', 'fire', 'spyne/protocol/xml.py',
+           in_func('XmlDocument.array_from_element',
+                   "if len(retval) < attrs.min_occurs",
+                   "if len(retval) <= attrs.min_occurs"), 'occurs-bound'),
+    Mutant('xml-array-bounds-flipped-operands', 'R25', 'benign',
+           'spyne/protocol/xml.py',
+           in_func('XmlDocument.array_from_element',
+                   "if len(retval) < attrs.min_occurs",
+                   "if attrs.min_occurs > len(retval)"), None),
     Mutant('array-freq-switch-from-item-type', 'R23', 'fire',
            'spyne/protocol/dictdoc/hier.py',
            in_func('HierDictDocument._doc_to_object',
